@@ -100,6 +100,13 @@ def entry_points():
     eps['pred2'] = lambda seed: _pred(2).sample(
         [1.0, 0.5, 0.3, 0.2], TIMES, n_samples=2, seed=seed, return_df=False)
 
+    # an error-model parameter fixed beforehand
+    def pred_fixed(seed):
+        pm = _pred(2)
+        pm.fix_parameters({pm.get_parameter_names()[2]: 0.3})
+        return pm.sample([1.0, 0.5, 0.2], TIMES, n_samples=3, seed=seed,
+                         return_df=False)
+    eps['pred_fixed'] = pred_fixed
     # replicate measurements: requested times with repeated values
     rep = [1.1, 0.4, 1.1, 2.0, 0.4]
     eps['pred1rep'] = lambda seed: _pred(1).sample(
@@ -260,9 +267,9 @@ DISTINCT_CELLS = {'init:posterior', 'init:hierarchical', 'init:filter',
                   'init:filter3', 'init:hier_special', 'err:G', 'err:M', 'err:CM', 'err:LN', 'pop:G', 'pop:LNnc',
                   'pop:TG', 'pop:G3same', 'pop:LN3same', 'pop:TG3same',
                   'pop:redTG2', 'pred1', 'pred2', 'pred1rep', 'pred2rep',
-                  'poppred', 'poppred_rep', 'poppred_pooled'}
+                  'poppred', 'poppred_rep', 'poppred_pooled', 'pred_fixed'}
 GENERATOR_OK = {'postpred_shared_a', 'postpred_shared_b', 'pop:G3same', 'pop:LN3same', 'pop:TG3same', 'pop:redTG2',
-                'pred1rep', 'pred2rep', 'poppred_rep', 'poppred_pooled', 'err:G', 'err:M', 'err:CM', 'err:LN', 'pop:G', 'pop:LNnc', 'pop:TG',
+                'pred1rep', 'pred2rep', 'poppred_rep', 'poppred_pooled', 'pred_fixed', 'err:G', 'err:M', 'err:CM', 'err:LN', 'pop:G', 'pop:LNnc', 'pop:TG',
                 'pop:H', 'pop:comp', 'pop:compH', 'pop:compH2', 'pop:cov', 'pop:compcov', 'pred1', 'pred2', 'poppred',
                 'postpred', 'pam', 'priorpred', 'postpred2', 'pam2'}
 
